@@ -188,6 +188,18 @@ CLAIMED.update({
              note=EX_NOTE, technique='Coq proof (invariants + induction over datagram sequences and loop fuel) over a hand-written model; sanitizer-run differential tie and search',
              ref='DESIGN.md section 4 C18'),
 })
+CLAIMED.update({
+ 'C19': dict(text='Theorem C19_tunnel: for both byte orders, UDP/raw x TSCF/NTSCF x classic/FD, ANY list of well-formed CAN frames (len <= 8 / 64, frames without EFF have '
+                  '11-bit identifiers) whose messages fit the 1500-byte packet, any sequence numbers and timestamps, any prior content of the talker\'s and the '
+                  'listener\'s buffers: the modelled talker (init_cf_pdu, prepare_acf_packet per frame, update_cf_length) sends exactly header + sum of message '
+                  'lengths bytes, its control header announces exactly that sum, and the modelled listener handles the packet and writes exactly one frame per '
+                  'frame sent, in order (induction over the frame list through Avtp_Can_CreateAcfMessage = C06). C19_identifier_and_flags / C19_fd_flags / '
+                  'C19_length_and_data: each written frame has the same 29 identifier bits, EFF, RTR, length, BRS, ESI and data bytes as the frame sent; FDF is set '
+                  'in FD mode and the error-frame bit is not tunnelled (stated in the theorems).',
+             note=EX_NOTE + ' The talker is tied by comparing the packets of the real talker main() byte for byte with talker_packet.',
+             technique='Coq proof (record algebra of C05/C06 + induction over the frames of a packet) over a hand-written model; end-to-end differential tie (real talker main -> real listener)',
+             ref='DESIGN.md section 4 C19'),
+})
 def main():
     checks = []
     for pid in ALL:
